@@ -425,6 +425,16 @@ def path_cases():
                                           'envlib/x.lua': b'o=1\n'},
          b'require("mod")\nz=1\n', ['--lua-path', 'arglib/?.lua;?.lua'], '<D>/envlib/?.lua',
          {b'mod': 'arglib/mod.lua', b'deep': 'arglib/arglib/deep.lua'}),
+        # package names that differ only in letter case are different packages (two files, two table entries)
+        ('case-variant-names', {'Util.lua': b'U=1\n', 'util.lua': b'u=2\n', 'UTIL.lua': b'uu=3\n'},
+         b'require("util")\nrequire("Util")\nrequire("UTIL")\nrequire("util")\nz=1\n', [], None,
+         {b'util': 'util.lua', b'Util': 'Util.lua', b'UTIL': 'UTIL.lua'}),
+        # many packages: a star of 40 and a chain of 40 (each defined exactly once, none lost)
+        ('star-40', dict(('s%d.lua' % i, b's%d=%d\n' % (i, i)) for i in range(40)),
+         b''.join(b'require("s%d")\n' % i for i in range(40)) + b'z=1\n', [], None,
+         dict((b's%d' % i, 's%d.lua' % i) for i in range(40))),
+        ('chain-40', dict(('c%d.lua' % i, (b'require("c%d")\n' % (i + 1) if i < 39 else b'') + b'c%d=%d\n' % (i, i)) for i in range(40)),
+         b'require("c0")\nz=1\n', [], None, dict((b'c%d' % i, 'c%d.lua' % i) for i in range(40))),
     ] + nested_loadpath_cases() + odd_name_cases() + call_context_cases() + decoy_cases()
 
 
